@@ -10,6 +10,7 @@ from . import core, executor, libev
 from .core import (SimLock, SimRLock, SimCondition, SimEvent, SimThread, SimTime, SimQueueModule)
 
 _static_done = [False]
+POOL_CONN_KNOBS = {}     # per run: attribute -> value set on pooled (non-control) connections
 M = {}          # short name -> driver module
 SIMTIME = SimTime()
 
@@ -82,6 +83,10 @@ def install_static():
     def _conn_init(self, *a, **k):
         serial[0] += 1
         self._sim_serial = serial[0]
+        if POOL_CONN_KNOBS and not k.get('is_control_connection'):
+            # capacity knobs for pooled connections only (instance attributes read by the real __init__)
+            for name, val in POOL_CONN_KNOBS.items():
+                setattr(self, name, val)
         orig_init(self, *a, **k)
     cconn.Connection.__init__ = _conn_init
     cconn.Connection.__hash__ = lambda self: self.__dict__.get('_sim_serial', 0)
@@ -109,6 +114,7 @@ def install_run(sim, net):
     lr._global_loop = None
     lr.LibevConnection._socket_impl = net.module()
     M['cconn'].Connection._sim_serial_counter[0] = 0
+    POOL_CONN_KNOBS.clear()
     executor.SimFuture._serial[0] = 0
     return M
 
